@@ -102,6 +102,8 @@ pub struct DScn {
     /// if set, `cfg` is installed as the per-entity configuration of every peer and THIS is the
     /// daemons' default configuration (which must then never be used for these transactions)
     pub default_cfg: Option<Scenario>,
+    /// the source names are symbolic links (inside the sender's root) to the files holding the data
+    pub src_symlink: bool,
 }
 
 /// the explorer's alphabet
@@ -209,6 +211,10 @@ struct Exec {
     finished_pdus: Vec<(usize, Vec<u8>)>, // (destination daemon, bytes) of everything ever delivered
     initial_inds: Vec<String>,
     sent_pdus: Vec<(usize, Vec<u8>)>, // (originating daemon, bytes) of everything ever taken from a slot
+    /// ids of stray *responses* (direction ToSender) of unknown transactions: nothing may ever run for them
+    no_txn_for: Vec<TransactionID>,
+    /// encodings of the PDUs the link dropped
+    dropped: Vec<Vec<u8>>,
 }
 
 thread_local! {
@@ -255,7 +261,12 @@ impl Exec {
         }
         // source files
         for (k, t) in scn.txns.iter().enumerate() {
-            std::fs::write(d[t.from].root.join(format!("src{}.bin", k)), file_bytes(t.size, k)).unwrap();
+            if scn.src_symlink {
+                std::fs::write(d[t.from].root.join(format!("real-src{}.bin", k)), file_bytes(t.size, k)).unwrap();
+                std::os::unix::fs::symlink(format!("real-src{}.bin", k), d[t.from].root.join(format!("src{}.bin", k))).unwrap();
+            } else {
+                std::fs::write(d[t.from].root.join(format!("src{}.bin", k)), file_bytes(t.size, k)).unwrap();
+            }
         }
         let n = scn.daemons;
         let nu = scn.user.len();
@@ -276,10 +287,12 @@ impl Exec {
             t0: tokio::time::Instant::now(),
             validated: 0,
             violations: vec![],
-            stray_menu_len: 8,
+            stray_menu_len: 10,
             sent_pdus: vec![],
             finished_pdus: vec![],
             initial_inds: vec![],
+            no_txn_for: vec![],
+            dropped: vec![],
             scn,
         }
     }
@@ -317,6 +330,12 @@ impl Exec {
         for (id, role, step) in events {
             let side = if role == "send" { Side::S } else { Side::R };
             let Some(ti) = self.twin_idx(&id) else {
+                if self.no_txn_for.contains(&id) {
+                    if !self.violations.iter().any(|v| v.0 == "stray-response-started-transaction") {
+                        self.violations.push(("stray-response-started-transaction".into(), role.to_string(), format!("a response PDU (direction: to sender) of the unknown transaction {:?} was not discarded: a {} transaction is running for it ({:?})", id, role, step)));
+                    }
+                    continue;
+                }
                 // a receive transaction started by a stray / replayed PDU
                 match step {
                     LoopStep::Spawned(_) => {
@@ -450,6 +469,22 @@ impl Exec {
                 }
             }
         }
+        // every PDU for the receiving side of one of the transactions, once inside the destination
+        // daemon, is handed to a transaction — the one that exists, or one started for it. (The twin
+        // is driven by what the real loops did; a PDU the daemon silently drops would otherwise
+        // leave no trace at all.)
+        for t in &self.twins {
+            // (what the daemon does with PDUs of a transaction that has ended is its own business)
+            let r = t.world.life(Side::R);
+            if !(r == Life::NotCreated || r.live()) || t.exited_r {
+                continue;
+            }
+            if let Some(q) = self.pending_cmd.get(&(t.spec.to, t.id)) {
+                if let Some(p) = q.iter().find(|p| p.header.direction == Direction::ToReceiver) {
+                    return Err(format!("daemon {} did not hand {} of transaction {:?} to any transaction", t.spec.to, pdu_brief(p), t.id));
+                }
+            }
+        }
         // indications of the real daemons. A ghost receiver (same id, started by a late PDU after the
         // receiver had ended) raises indications of its own: for such ids the twin's indications
         // must be contained in the real ones, for all others the multisets must be equal.
@@ -567,6 +602,22 @@ impl Exec {
             // a PDU this daemon sent itself, reflected back to it (looped-back link)
             6 => self.sent_pdus.iter().find(|(dd, _)| *dd == daemon).and_then(|(_, b)| PDU::decode(&mut b.as_slice()).ok()),
             7 => self.sent_pdus.iter().rev().find(|(dd, _)| *dd == daemon).and_then(|(_, b)| PDU::decode(&mut b.as_slice()).ok()),
+            // misrouted responses: direction "to sender", but the transaction's source is the
+            // peer (or an entity nobody knows), not this daemon, and no such transaction exists here
+            8 => Some(mk(
+                Direction::ToSender,
+                peer,
+                me,
+                96,
+                PDUPayload::Directive(Operations::Ack(PositiveAcknowledgePDU { directive: PDUDirective::EoF, directive_subtype_code: ACKSubDirective::Other, condition: Condition::NoError, transaction_status: TransactionStatus::Active })),
+            )),
+            9 => Some(mk(
+                Direction::ToSender,
+                VariableID::from(77u16),
+                peer,
+                95,
+                PDUPayload::Directive(Operations::Finished(Finished { condition: Condition::NoError, delivery_code: DeliveryCode::Complete, file_status: FileStatusCode::Retained, filestore_response: vec![], fault_location: None })),
+            )),
             _ => None,
         }
     }
@@ -697,6 +748,25 @@ impl Exec {
                 self.quiesce().await;
                 let got = self.d[*dmn].out_rx.try_recv().map_err(|_| format!("Take on daemon {}: the transport slot was empty although the twin says a PDU was sent", dmn))?;
                 let bytes = got.1.clone().encode();
+                // direct oracle (C07, daemon level: the Put request is turned into metadata by the
+                // daemon, not by the transaction): the sizes stated are those of the source data
+                {
+                    let id = TransactionID(got.1.header.source_entity_id, got.1.header.transaction_sequence_number);
+                    if let (Some(ti), Direction::ToReceiver) = (self.twin_idx(&id), &got.1.header.direction) {
+                        let size = self.twins[ti].spec.size;
+                        if let PDUPayload::Directive(op) = &got.1.payload {
+                            match op {
+                                Operations::Metadata(m) if m.file_size != size => {
+                                    self.violations.push(("metadata-size-wrong".into(), "".into(), format!("the Metadata PDU of transaction {:?} states file size {} but the source holds {} bytes", id, m.file_size, size)));
+                                }
+                                Operations::EoF(e) if e.condition == Condition::NoError && e.file_size != size => {
+                                    self.violations.push(("eof-size-wrong".into(), "".into(), format!("the EOF PDU of transaction {:?} states file size {} but the source holds {} bytes", id, e.file_size, size)));
+                                }
+                                _ => {}
+                            }
+                        }
+                    }
+                }
                 let want = self.slot_expect[*dmn].pop_front().ok_or_else(|| "internal: slot bookkeeping".to_string())?;
                 if bytes != want {
                     return Err(format!(
@@ -717,7 +787,8 @@ impl Exec {
                 self.inject(f.to, &f.bytes).await;
             }
             Act::Drop(k) => {
-                self.inflight.remove(*k);
+                let f = self.inflight.remove(*k);
+                self.dropped.push(f.bytes);
             }
             Act::Burst => {
                 self.bursts_left -= 1;
@@ -800,6 +871,10 @@ impl Exec {
             Act::Stray(dmn, k) => {
                 self.strays_left -= 1;
                 if let Some(p) = self.stray_pdu(*dmn, *k) {
+                    let sid = TransactionID(p.header.source_entity_id, p.header.transaction_sequence_number);
+                    if p.header.direction == Direction::ToSender && self.twin_idx(&sid).is_none() {
+                        self.no_txn_for.push(sid);
+                    }
                     let bytes = p.encode();
                     self.inject(*dmn, &bytes).await;
                     self.quiesce().await;
@@ -878,6 +953,71 @@ pub fn run_schedule(scn: &DScn, prefix: &[usize]) -> RunResult {
                 }
             }
             step += 1;
+        }
+        // A single acknowledged transaction that departed from its model: the real daemons are
+        // left to run on by themselves over a faithful FIFO link, and the transfer is judged
+        // directly against C02 — which promises completion when no PDU was lost twice (fewer
+        // consecutive losses than the limit of 2) and nothing was delayed past a timer. (The twin cannot be the judge
+        // here: it does not contain the daemon's routing.)
+        let premise = scn.txns.len() == 1
+            && scn.txns[0].ack
+            && scn.user.is_empty()
+            && !scn.strays
+            && !scn.bursts
+            && scn.cfg.handlers.is_empty()
+            && scn.cfg.max_count >= 2
+            && scn.default_cfg.is_none()
+            // no PDU lost twice (retransmissions are octet-identical): fewer consecutive losses than the limit of 2
+            && (0..ex.dropped.len()).all(|i| (0..i).all(|j| ex.dropped[i] != ex.dropped[j]))
+            && !acts.iter().any(|a| a.starts_with("Advance"));
+        if premise && divergence.as_ref().map_or(false, |d| !d.starts_with("AMBIGUOUS-TIMERS")) && std::env::var("VERIF_E2_NO_PUMP").is_err() {
+            let spec = scn.txns[0].clone();
+            let started = tokio::time::Instant::now();
+            let deadline = Duration::from_millis(2 * crate::mons::c03_bound(&scn.cfg) + 10_000);
+            let flights: Vec<Flight> = ex.inflight.drain(..).collect();
+            for f in flights {
+                if let Ok(pdu) = PDU::decode(&mut f.bytes.as_slice()) {
+                    let _ = ex.d[f.to].in_tx.send(pdu).await;
+                    ex.quiesce().await;
+                }
+            }
+            let mut pumped = 0usize;
+            while started.elapsed() < deadline && pumped < 100_000 {
+                let mut moved = false;
+                for i in 0..ex.d.len() {
+                    let _ = ex.d[i].take_tx.send(());
+                    ex.quiesce().await;
+                    while let Ok((dest, pdu)) = ex.d[i].out_rx.try_recv() {
+                        moved = true;
+                        pumped += 1;
+                        if let Some(j) = ex.daemon_of(&dest) {
+                            let _ = ex.d[j].in_tx.send(pdu).await;
+                            ex.quiesce().await;
+                        }
+                    }
+                }
+                ex.trace.borrow_mut().clear();
+                if !moved {
+                    tokio::time::advance(Duration::from_secs(1)).await;
+                }
+            }
+            let real = std::fs::read(ex.d[spec.to].root.join("dst0.bin")).ok();
+            if real.as_deref() != Some(file_bytes(spec.size, 0).as_slice()) {
+                ex.violations.push((
+                    "transfer-not-completed".into(),
+                    "single-acknowledged-transaction".into(),
+                    format!(
+                        "acknowledged transfer of {} bytes with no PDU lost twice and nothing delayed: the real daemons were left running for {} virtual seconds over a faithful link and the destination file is {} (the real daemon had left the transaction model: {})",
+                        spec.size,
+                        deadline.as_secs(),
+                        match &real {
+                            None => "absent".to_string(),
+                            Some(b) => format!("{} bytes, not the source", b.len()),
+                        },
+                        divergence.clone().unwrap_or_default()
+                    ),
+                ));
+            }
         }
         // end-of-run oracles
         if divergence.is_none() && completed {
